@@ -777,6 +777,7 @@ func loadContracts(path string) (*Contracts, error) {
 				}
 				cur.Rank = e
 			case "cost":
+				rest = strings.TrimSpace(strings.TrimPrefix(strings.TrimSpace(rest), "<="))
 				e, err := parseExprString(rest)
 				if err != nil {
 					return nil, fail(err)
